@@ -351,7 +351,7 @@ def run(ctx):
         for delta in (-1, 0, 1):
             play('cas', [('PROG', 'A', a_boundary(k, delta)), ('NEXT', rng.choice('DBM'), rng.randint(1, 300))])
     play('wav', [('PROG', 'A', a_boundary(1, 0)), ('NEXT', 'D', 7)])
-    nrand = ctx.pick(30, 500)
+    nrand = ctx.pick(30, 300)
     for h in range(nrand):
         fmt = 'wav' if rng.random() < ctx.pick(0.2, 0.25) else 'cas'
         nf = rng.randint(1, 4)
